@@ -823,6 +823,13 @@ class Enumerator:
             s.empty = s.empty - tested
             s.ph = s.ph - tested
         for e, pol in facts(test, outcome):
+            if isinstance(e, ast.Compare) and len(e.ops) == 1 and isinstance(e.left, ast.Call) and isinstance(e.comparators[0], ast.Constant) and e.comparators[0].value is None and isinstance(e.ops[0], (ast.Is, ast.IsNot)) and self.is_attempt(e.left):
+                if pol == isinstance(e.ops[0], ast.Is):
+                    s = s.copy()
+                    s.marks = s.marks | {f"null:{short(e.left, 40)}"}  # the lookup answered None
+            elif isinstance(e, ast.Call) and not pol and self.is_attempt(e):
+                s = s.copy()
+                s.marks = s.marks | {f"null:{short(e, 40)}"}
             if isinstance(e, ast.Name) and not any(k[0] == f"bool:{e.id}" for k in s.known):
                 s = s.copy()
                 s.known = s.known | {(f"bool:{e.id}", pol, frozenset({e.id}))}  # same unmodified name tested twice
@@ -1647,7 +1654,10 @@ def _file_predicates(fi: FunctionInfo, e: ast.AST, depth: int = 0, seen: frozens
                 if st is not None:
                     try:
                         for t, pol in cfg.guards(cfg.stmt_of(st)):
-                            if pol:
+                            if isinstance(t, ast.Compare) and len(t.ops) == 1 and isinstance(t.comparators[0], ast.Constant) and t.comparators[0].value is None and isinstance(t.ops[0], (ast.Is, ast.IsNot)):
+                                if pol == isinstance(t.ops[0], ast.IsNot):
+                                    out |= _file_predicates(fi, t.left, depth + 1, seen | {x.id})
+                            elif pol:
                                 out |= _file_predicates(fi, t, depth + 1, seen | {x.id})
                     except Unsupported:
                         pass
@@ -1784,7 +1794,11 @@ def r1_classification_totality(corpus: Corpus, rep: Report, tier: str):
                 continue
             preds: set[str] = set()
             for t, pol in all_guards(cfg, c):
-                if pol:
+                if isinstance(t, ast.Compare) and len(t.ops) == 1 and isinstance(t.comparators[0], ast.Constant) and t.comparators[0].value is None and isinstance(t.ops[0], (ast.Is, ast.IsNot)):
+                    # `lookup(...) is not None` holds / `lookup(...) is None` does not: the lookup answered
+                    if pol == isinstance(t.ops[0], ast.IsNot):
+                        preds |= _file_predicates(fi, t.left)
+                elif pol:
                     preds |= _file_predicates(fi, t)
             k = f"{fi.fq}|download_reference|only for an existing regular file"
             site = fi.module.site(c)
@@ -2569,6 +2583,25 @@ def _truthy_names_at(fi: FunctionInfo, node: ast.AST) -> frozenset:
     return frozenset(out)
 
 
+def _param_encodings(rcls, m: FunctionInfo) -> dict[str, set[str]]:
+    """Kinds (RAW/PARTIAL/DEC) of the parameters of a helper method, from what the other methods of the class pass."""
+    envp: dict[str, set[str]] = {}
+    for prm in m.params:
+        kinds: set[str] = set()
+        for other in rcls.methods.values():
+            if other.fq == m.fq:
+                continue
+            for cc in [x for x in other.local_nodes() if isinstance(x, ast.Call)]:
+                lc = _local_callee(other, cc)
+                if lc is not None and lc[0].fq == m.fq:
+                    pn = param_of_arg_expr(m, cc, prm)
+                    if pn is not None:
+                        kinds |= _encoding(other, pn, get_cfg(other).stmt_of(cc))
+        if kinds:
+            envp[prm] = kinds
+    return envp
+
+
 @rule("C12.R5")
 def r5_writer_reader_agreement(corpus: Corpus, rep: Report, tier: str):
     rep.rule("C12.R5", "every attribute the resolver subscripts on a 'myst' pending_xref is set by every constructor with the matching refdomain; doc links: reftarget from path2doc, reftargetid = part after '#'; non-doc reftarget = whole destination; href-derived values are percent-decoded")
@@ -2639,7 +2672,7 @@ def r5_writer_reader_agreement(corpus: Corpus, rep: Report, tier: str):
                 sinks = [("relfn2path|filename", call.args[0])]
             at = get_cfg(m).stmt_of(call) if sinks else None
             for label, v in sinks:
-                enc = _encoding(m, v, at)
+                enc = _encoding(m, v, at, frozenset(), _param_encodings(rcls, m) or None)
                 if not enc:
                     continue  # not derived from the href (e.g. a docname)
                 n_enc += 1
@@ -2661,18 +2694,7 @@ def r5_writer_reader_agreement(corpus: Corpus, rep: Report, tier: str):
             except Unsupported:
                 continue
             # the receiver's kind: inside a helper the parameter's kind comes from its call sites
-            envp: dict[str, set[str]] = {}
-            for prm in m.params:
-                kinds: set[str] = set()
-                for other in rcls.methods.values():
-                    for cc in [x for x in other.local_nodes() if isinstance(x, ast.Call)]:
-                        lc = _local_callee(other, cc)
-                        if lc is not None and lc[0].fq == m.fq:
-                            pn = param_of_arg_expr(m, cc, prm)
-                            if pn is not None:
-                                kinds |= _encoding(other, pn, get_cfg(other).stmt_of(cc))
-                if kinds:
-                    envp[prm] = kinds
+            envp = _param_encodings(rcls, m)
             enc = _encoding(m, recv, at, frozenset(), envp or None)
             if not enc:
                 continue
@@ -2688,9 +2710,24 @@ def r5_writer_reader_agreement(corpus: Corpus, rep: Report, tier: str):
     n_rel = 0
     for name in ("render_link_project", "render_link_unknown"):
         fi = corpus.func(f"{SPHINX_R}.{name}")
-        for call in [c for c in fi.local_nodes() if isinstance(c, ast.Call) and isinstance(c.func, ast.Attribute) and c.func.attr == "relfn2path"]:
+        sites: list[tuple[ast.Call, ast.expr | None, ast.expr | None, FunctionInfo]] = []
+        for c in [c for c in fi.local_nodes() if isinstance(c, ast.Call)]:
+            if isinstance(c.func, ast.Attribute) and c.func.attr == "relfn2path":
+                sites.append((c, call_arg(c, 0, "filename"), call_arg(c, 1, "docname"), fi))
+                continue
+            # the lookup moved into a helper: judge what the handler hands to the parameter that reaches relfn2path
+            lc = _local_callee(fi, c)
+            if lc is not None and not lc[0].is_lambda:
+                for ic in [x for x in lc[0].local_nodes() if isinstance(x, ast.Call) and isinstance(x.func, ast.Attribute) and x.func.attr == "relfn2path"]:
+                    ia = call_arg(ic, 0, "filename")
+                    if isinstance(ia, ast.Name) and ia.id in lc[0].params and not assignments_to(lc[0], ia.id):
+                        sites.append((c, param_of_arg_expr(lc[0], c, ia.id), None, fi))
+                        db = call_arg(ic, 1, "docname")
+                        if db is not None:
+                            sites.append((ic, None, db, lc[0]))
+        for call, a, b, owner in sites:
+          if a is not None or b is None:
             n_rel += 1
-            a = call_arg(call, 0, "filename")
             k = f"{fi.fq}|relfn2path|file part of the destination"
             parts = _hash_part(fi, a) if a is not None else {"?"}
             if "?" in parts:
@@ -2699,16 +2736,15 @@ def r5_writer_reader_agreement(corpus: Corpus, rep: Report, tier: str):
                 rep.ok("C12.R5", k, fi.module.site(call), unparse(a))
             else:
                 rep.violation("C12.R5", k, fi.module.site(call), f"relfn2path(`{unparse(a)}`) receives {sorted(parts)} instead of the part before '#': `doc.md#anchor` is never recognised as a document")
-            b = call_arg(call, 1, "docname")
-            if b is not None:
-                k2 = f"{fi.fq}|relfn2path|relative to the current document"
-                kinds = DocKinds(corpus).kind(b, fi)
+          if b is not None:
+                k2 = f"{owner.fq}|relfn2path|relative to the current document"
+                kinds = DocKinds(corpus).kind(b, owner)
                 if kinds == {"FROM"}:
-                    rep.ok("C12.R5", k2, fi.module.site(call), unparse(b))
+                    rep.ok("C12.R5", k2, owner.module.site(call), unparse(b))
                 elif "?" in kinds:
-                    rep.error("C12.R5", f"{fi.qualname}: cannot trace the docname argument of relfn2path")
+                    rep.error("C12.R5", f"{owner.qualname}: cannot trace the docname argument of relfn2path")
                 else:
-                    rep.violation("C12.R5", k2, fi.module.site(call), f"relfn2path resolves relative to `{unparse(b)}` ({sorted(kinds)}), not to the referencing document")
+                    rep.violation("C12.R5", k2, owner.module.site(call), f"relfn2path resolves relative to `{unparse(b)}` ({sorted(kinds)}), not to the referencing document")
     if n_rel < 2:
         rep.error("C12.R5", f"only {n_rel} relfn2path call(s) found in the link handlers")
     rep.expect_min("C12.R5", 20, "4 writers x required attributes + value roles + relfn2path + decoded href values")
